@@ -122,11 +122,15 @@ class InterpolatingOpacity(Opacity):
         # Max pressure
         if check_pressure_max:
             self.debug('Max pressure reached. Interpolating temperature only')
+            # Never extrapolate below the temperature grid
+            T = max(T, min_temperature)
             return self.interp_temp_only(T, t_idx_min, t_idx_max, -1, wngrid_filter)
 
         # Max temperature
         if check_temperature_max:
             self.debug('Max temperature reached. Interpolating pressure only')
+            # Never extrapolate below the pressure grid
+            P = max(P, min_pressure)
             return self.interp_pressure_only(P, p_idx_min, p_idx_max, -1, wngrid_filter)
 
 
